@@ -115,11 +115,38 @@ def insert_noops(tree) -> int:
     return count
 
 
+def annotate_assigns(tree) -> int:
+    """`x = v` -> `x: object = v` for single-name local assignments (not global/nonlocal names); and `self.a = v` -> `self.a: object = v`."""
+    count = 0
+    for fn in ast.walk(tree):
+        if not isinstance(fn, FuncNode):
+            continue
+        declared = set()
+        for n in ast.walk(fn):
+            if isinstance(n, (ast.Global, ast.Nonlocal)):
+                declared.update(n.names)
+        for n in ast.walk(fn):
+            for field in ("body", "orelse", "finalbody"):
+                blk = getattr(n, field, None)
+                if not isinstance(blk, list):
+                    continue
+                for i, st in enumerate(blk):
+                    if isinstance(st, ast.Assign) and len(st.targets) == 1 and not getattr(st, "_done", False):
+                        t = st.targets[0]
+                        if (isinstance(t, ast.Name) and t.id not in declared) or (isinstance(t, ast.Attribute) and isinstance(t.value, ast.Name)):
+                            new = ast.AnnAssign(target=t, annotation=ast.Name(id="object", ctx=ast.Load()), value=st.value, simple=1 if isinstance(t, ast.Name) else 0)
+                            ast.copy_location(new, st)
+                            blk[i] = new
+                            count += 1
+    ast.fix_missing_locations(tree)
+    return count
+
+
 def all_three(tree) -> int:
     return invert_branches(tree) + rename_locals(tree) + insert_noops(tree)
 
 
-TRANSFORMS = {"rename": rename_locals, "invert": invert_branches, "noops": insert_noops, "all": all_three}
+TRANSFORMS = {"rename": rename_locals, "invert": invert_branches, "noops": insert_noops, "all": all_three, "annotate": annotate_assigns}
 
 
 def refactored_copy(root: str = "/repo", transform=rename_locals) -> tuple[str, int]:
